@@ -508,6 +508,10 @@ func VerifyAccess(ctx context.Context, be backend.Backend, opts AccessOptions) e
 }
 
 func VerifyObjectCopyAccess(ctx context.Context, be backend.Backend, copySource string, opts AccessOptions) error {
+	// a copy always writes the destination
+	if opts.Readonly {
+		return s3err.GetAPIError(s3err.ErrAccessDenied)
+	}
 	if opts.IsRoot {
 		return nil
 	}
